@@ -293,3 +293,52 @@ Proof.
   destruct f; simpl max_digits; try lia; apply C17_requested_digits_margin; exact HD.
 Qed.
 Print Assumptions C17_digits_every_format.
+
+(* mpf_get_rdpe (mpf_get_d of the fraction, rdpe_set_2dl with its frexp) is the normalised 53-bit TRUNCATION of the stored value:
+   mantissa in [1/2, 1), same sign, magnitude not above and less than 2^-52 (relative) below the stored one *)
+Theorem C17_mpf_get_rdpe_truncation : forall x : Q, ~ x == 0 ->
+  let '(m, e) := mpf_get_rdpe x in
+  1 # 2 <= Qabs m /\ Qabs m < 1 /\
+  Qabs (m * pow2 e) <= Qabs x /\ Qabs x - Qabs (m * pow2 e) < pow2 (- 52) * Qabs x /\
+  (0 <= x -> 0 <= m) /\ (x <= 0 -> m <= 0).
+Proof. exact mpf_get_rdpe_spec. Qed.
+Print Assumptions C17_mpf_get_rdpe_truncation.
+
+Example C17_mpf_get_rdpe_ex :     (* 2^64 - 1 (all ones) truncates to 1 - 2^-53, it does not round up to 1 *)
+  mpf_get_rdpe ((2 ^ 64 - 1) # 1) = ((2 ^ 53 - 1) * 1 # 2 ^ 53, 64%Z) /\ mpf_get_rdpe 0 = (0, 0%Z) /\
+  fst (mpf_get_rdpe (- (5 # 1))) == - (5 # 8).
+Proof. repeat split; vm_compute; reflexivity. Qed.
+
+(* the other side of the radius clause: printed <= stored * 10^D * (1 + upow + 5e-14) *)
+Theorem C17_printed_radius_le : forall (flog10 fpow10 : Q -> Q) (ulog upow : R),
+  (0 <= ulog)%R -> (0 <= upow <= / 2)%R ->
+  (forall m : Q, 1 # 2 <= m -> m < 1 -> (Rabs (Q2R (flog10 m) - log10R (Q2R m)) <= ulog)%R) ->
+  (forall y : Q, Qabs y < 1 -> (Rabs (Q2R (fpow10 y) - pow10R (Q2R y)) <= upow * pow10R (Q2R y))%R) ->
+  forall (m : Q) (esp : Z), 1 # 2 <= m -> m < 1 ->
+  let '(d, l) := get_dl flog10 fpow10 m esp in
+  (Q2R (out_value d l) <= Q2R m * Q2R (pow2 esp) * pow10R (Derr ulog esp) * (1 + upow + 5 / 10 ^ 14))%R.
+Proof. intros fl fp ul up H1 H2 H3 H4. exact (printed_radius_le fl fp ul up H1 H2 H3 H4). Qed.
+Print Assumptions C17_printed_radius_le.
+
+(* a gnuplot component (mps_outfloat: mpf_get_rdpe, rdpe_out_str_u) of a positive stored value x: two-sided bound in terms of x.
+   Partial: positive x only (the negative branch of rdpe_get_dl mirrors it, not proved); a bound relative to x, not the
+   one-unit clause, which is refuted (C17_gnuplot_unit_refuted) *)
+Theorem C17_gnuplot_component_partial : forall (flog10 fpow10 : Q -> Q) (ulog upow : R),
+  (0 <= ulog)%R -> (0 <= upow <= / 2)%R ->
+  (forall m : Q, 1 # 2 <= m -> m < 1 -> (Rabs (Q2R (flog10 m) - log10R (Q2R m)) <= ulog)%R) ->
+  (forall y : Q, Qabs y < 1 -> (Rabs (Q2R (fpow10 y) - pow10R (Q2R y)) <= upow * pow10R (Q2R y))%R) ->
+  forall x : Q, 0 < x ->
+  let '(m, esp) := mpf_get_rdpe x in
+  let '(d, l) := get_dl flog10 fpow10 m esp in
+  ((0 <= 1 - ln 10 * Derr ulog esp - upow - 5 / 10 ^ 14)%R ->
+   (Q2R x * (1 - / 2 ^ 52) * (1 - ln 10 * Derr ulog esp - upow - 5 / 10 ^ 14) <= Q2R (out_value d l))%R) /\
+  (Q2R (out_value d l) <= Q2R x * pow10R (Derr ulog esp) * (1 + upow + 5 / 10 ^ 14))%R.
+Proof. intros fl fp ul up H1 H2 H3 H4. exact (gnuplot_component_bounds fl fp ul up H1 H2 H3 H4). Qed.
+Print Assumptions C17_gnuplot_component_partial.
+
+(* REFUTED: "no more digits than requested plus a fixed margin" for format full: mps_outfloat prints with mpf_out_str (.., 0, t),
+   i.e. GMP's cap for the STORED precision, which exceeds requested + margin for every margin (known finding
+   digits:full-format-prints-all-stored-digits, replayed by the check) *)
+Theorem C17_full_digits_refuted : forall margin D : Z, exists precf : Z, (D + margin < max_digits Full 0 precf (prec_of_digits D))%Z.
+Proof. exact full_digits_unbounded. Qed.
+Print Assumptions C17_full_digits_refuted.
